@@ -1,5 +1,8 @@
 #!/usr/bin/env python3
-"""tools/seed_table.py <matrix.tsv>... — markdown table 'seeded change -> checks that report a violation' for DESIGN.md"""
+"""tools/seed_table.py [matrix.tsv...] — markdown table 'stored breaking change -> checks that report it' for DESIGN.md.
+Own-property column: seeded/<id>/meta.json (my_checks, recorded by tools/seeded_eval.sh against /repo itself).
+'also reported by': cross runs of the other properties' quick checks (tools/seed_matrix.sh, scratch copies), where such
+a run exists for the change; 'n/r' = the cross run was not made for this change."""
 import sys, json, os, collections
 HERE = os.path.dirname(os.path.dirname(os.path.abspath(__file__)))
 res = collections.defaultdict(dict)
@@ -7,14 +10,28 @@ for f in sys.argv[1:]:
     for l in open(f):
         p = l.split()
         if len(p) == 3 and p[1].startswith('C'):
-            res[p[0]][p[1]] = p[2]
+            # a KILLED from any run stands (checks were only ever strengthened between runs)
+            if res[p[0]].get(p[1]) != 'KILLED':
+                res[p[0]][p[1]] = p[2]
 print("| change | what it does | needs | own check | also reported by |")
 print("|---|---|---|---|---|")
-for sid in sorted(res):
-    m = json.load(open(os.path.join(HERE, 'seeded', sid, 'meta.json')))
+n = det = 0
+for sid in sorted(os.listdir(os.path.join(HERE, 'seeded'))):
+    mp = os.path.join(HERE, 'seeded', sid, 'meta.json')
+    if not os.path.exists(mp):
+        continue
+    m = json.load(open(mp))
     own = sid.split('-')[0]
-    r = res[sid]
+    mc = m.get('my_checks', {})
+    o = {'DETECTED (VIOLATION reported)': 'detected', 'NOT DETECTED': '**not detected**'}.get(mc.get(own, {}).get('result'), mc.get(own, {}).get('result', 'not run'))
+    n += 1
+    det += o == 'detected'
+    r = dict(res.get(sid, {}))
+    for c, v in mc.items():
+        if c != own and v.get('result', '').startswith('DETECTED'):
+            r[c] = 'KILLED'
     others = [c for c in sorted(r) if r[c] == 'KILLED' and c != own]
-    inc = [c for c in sorted(r) if r[c] == 'inconclusive']
-    o = {'KILLED': 'detected', 'passed': '**missed**', 'inconclusive': 'inconclusive'}.get(r.get(own, '?'), '?')
-    print(f"| {sid} | {m['change']} | {m['needs_to_manifest']} | {o} | {', '.join(others) or '-'}{(' (inconclusive: ' + ', '.join(inc) + ')') if inc else ''} |")
+    cross = ', '.join(others) if others else ('-' if len(res.get(sid, {})) >= 19 else 'n/r')
+    esc = lambda t: t.replace('|', '\\|')
+    print(f"| {sid} | {esc(m['change'])} | {esc(m['needs_to_manifest'])} | {o} | {cross} |")
+print(f"\n{det} of {n} stored changes are reported by the quick tier of their own property's check.", file=sys.stderr)
